@@ -160,8 +160,8 @@ def spec() -> Spec:
         generate=generate,
         extract=extract,
         nontrivial=nontrivial,
-        budget={"quick": 1200, "thorough": 30000},
-        search_budget={"quick": 2500, "thorough": 40000},
+        budget={"quick": 900, "thorough": 8000},
+        search_budget={"quick": 2000, "thorough": 12000},
         rule="random histories of req/ack/tick/adv/link/unlink/have over 1-4 peers and 1-3 chunks (+1 never stored), global and "
              "per-peer limits 0..3, timeouts 0/1/2/5/30 s, rotation 0/1/2/5 s; repeated requests for the same (peer, chunk); "
              "advances aimed at start+timeout, rotation and servability deadlines (-1 ns, 0, +1 ns); distinct = sha256 of the op "
